@@ -6,6 +6,7 @@ from engine.common import known_predicates
 
 SPLIT = int(os.environ.get("XH_SPLIT", "-1"))
 NSPLIT = int(os.environ.get("XH_NSPLIT", "16"))
+QUICK = os.environ.get("XH_THOROUGH") != "1" and os.environ.get("XH_REPLAY") != "1"
 KF = set(known_predicates("C05"))
 
 MOL2 = """@<TRIPOS>MOLECULE
@@ -152,8 +153,8 @@ def apply(m, ref, mv):
                 target = ref.atoms[a]
             else:
                 return False
-        for bd in ref.bonds_of(target):
-            ref.bonds.remove(bd)
+        dead = ref.bonds_of(target)
+        ref.bonds = [x for x in ref.bonds if not any(x is d for d in dead)]
         ref.atoms.remove(target)
         ref.deleted.append(target)
         return True
@@ -191,7 +192,13 @@ def apply(m, ref, mv):
     if name == "del_bond":
         bd = ref.bonds[a]
         m.del_bond(bd)
-        ref.bonds.remove(bd)
+        # which of several parallel bonds between the same two atoms goes is not fixed by the property: exactly one bond joining that pair
+        # must have left the bond list (identity, not Bond.__eq__, which compares the atom pair)
+        same_pair = [x for x in ref.bonds if (x.a1 is bd.a1 and x.a2 is bd.a2) or (x.a1 is bd.a2 and x.a2 is bd.a1)]
+        gone = [x for x in same_pair if not any(x is y for y in m.bonds)]
+        if len(gone) != 1:
+            return False
+        ref.bonds = [x for x in ref.bonds if x is not gone[0]]
         return True
     if name in ("rm_subst", "rm_subst_idx"):
         bd = ref.bonds[a]
@@ -205,8 +212,8 @@ def apply(m, ref, mv):
         else:
             m.remove_substituent(ref.atoms.index(a1), ref.atoms.index(a2))
         for g in gone:
-            for x in ref.bonds_of(g):
-                ref.bonds.remove(x)
+            dead = ref.bonds_of(g)
+            ref.bonds = [x for x in ref.bonds if not any(x is d for d in dead)]
             ref.atoms.remove(g)
             ref.deleted.append(g)
         ap = m.atoms[-1]
@@ -330,6 +337,42 @@ def h_edit3_adddel(kind: int, s1: int, s2: int, s3: int) -> bool:
     return _history(Molecule, kind, [s1, s2, s3], True, SPLIT)
 
 
+def h_parallel_bonds(cls_sel: int, i: int, j: int, n_extra: int, which: int, then: int) -> bool:
+    """
+    parallel bonds: a pair of atoms (bonded already or not) is connected 1-2 more times, one of the bonds joining the pair is deleted by object,
+    then another edit follows (delete the next bond of the pair, delete an atom of the pair, add hydrogens): containers stay aligned, every bond in
+    the list has the molecule as parent and joins two of its atoms, deleting the atom deletes all its bonds
+    pre: 0 <= cls_sel <= 1 and 0 <= i <= 4 and 0 <= j <= 4 and i < j and 1 <= n_extra <= 2 and 0 <= which <= 2 and 0 <= then <= 3
+    pre: SPLIT < 0 or then == SPLIT
+    pre: not QUICK or (i, j) in ((0, 1), (0, 2), (1, 4))
+    post: _
+    """
+    cls = Molecule if cls_sel == 0 else Structure
+    m = start(1, cls)
+    ref = Ref(m, cls is Molecule)
+    i, j, ne, wh, th = pick(i, 5), pick(j, 5), pick(n_extra - 1, 2) + 1, pick(which, 3), pick(then, 4)
+    for _ in range(ne):
+        if not apply(m, ref, ("connect", i, j)) or not aligned(m, ref):
+            return False
+    a1, a2 = ref.atoms[i], ref.atoms[j]
+    pair = [k for k, x in enumerate(ref.bonds) if (x.a1 is a1 and x.a2 is a2) or (x.a1 is a2 and x.a2 is a1)]
+    if wh >= len(pair):
+        return True
+    if not apply(m, ref, ("del_bond", pair[wh], 0)) or not aligned(m, ref):
+        return False
+    if th == 1:
+        pair = [k for k, x in enumerate(ref.bonds) if (x.a1 is a1 and x.a2 is a2) or (x.a1 is a2 and x.a2 is a1)]
+        if pair and (not apply(m, ref, ("del_bond", pair[-1], 0)) or not aligned(m, ref)):
+            return False
+    elif th == 2:
+        if not apply(m, ref, ("del_obj", i, 0)) or not aligned(m, ref):
+            return False
+    elif th == 3:
+        if not apply(m, ref, ("hadd", 0, 0)) or not aligned(m, ref):
+            return False
+    return True
+
+
 def h_edit2_quick(s1: int, s2: int) -> bool:
     """
     two-edit histories over the add/delete subset from the loaded molecule (quick tier)
@@ -351,12 +394,12 @@ def run(rep, tier):
     rep.encoded = ENCODED
     rep.bounds = {"start states": "empty, loaded from a 5-atom mol2 text, clone", "classes": "Molecule, Structure",
                   "operations": "add_atom (charge given / omitted), new_atom, del_atom by object / index (-2..n+1) / label / Element, connect, append_bond (own atoms / a foreign atom), del_bond, remove_substituent (objects / indices), add_implicit_hydrogens; connect / del_atom with a stale reference to an atom deleted earlier",
-                  "history length": "1 (all), 2 (quick: add/delete subset; thorough: all), 3 (thorough, add/delete subset)"}
+                  "parallel bonds": "a pair connected 1-2 extra times, one bond of the pair deleted by object, then another edit", "history length": "1 (all), 2 (quick: add/delete subset; thorough: all), 3 (thorough, add/delete subset)"}
     rep.outside = ["histories longer than 3; the random length-40 histories of the quantifier are not reproduced (that would be sampling)",
                    "Conformer / Substructure views", "[selector-bound]: the symbolic variables are selectors over the finite menu of applicable moves; the solver enumerates them"]
     rep.assumptions = ["reference model keyed by atom identity; coordinates/charges carry a per-atom tag"]
     q = tier == "quick"
-    specs = [{"fn": "h_edit1", "timeout": 600, "split": s} for s in range(6)]
+    specs = [{"fn": "h_edit1", "timeout": 600, "split": s} for s in range(6)] + [{"fn": "h_parallel_bonds", "timeout": 600 if q else 3000, "split": s, "env": ({} if q else {"XH_THOROUGH": "1"})} for s in range(4)]
     if q:
         specs += [{"fn": "h_edit2_quick", "timeout": 600, "split": s, "env": {"XH_NSPLIT": "8"}} for s in range(8)]
     else:
